@@ -10,7 +10,7 @@ wt = '/tmp/wt/seed-%s' % pid
 out = '/tmp/seedout/%s' % pid
 print(f"""You are helping test a verification effort for the Rust PDF library bzsanti/oxidizePdf (crate `oxidize-pdf`, source under `oxidize-pdf-core/src`). Your job is to play the role of a developer who introduces a subtle regression.
 
-You have your own scratch git worktree of the repository at `{wt}` (a checkout of the pinned commit; `{wt}/target` already holds compiled dependencies). Work ONLY inside `{wt}` and write your deliverables to `{out}`. Do not read or touch `/repo`, `/verif` or `/root`. There is no network; always pass `--offline` to cargo. Use `cd {wt} && cargo ... --offline -j 6` (keep -j 6: other builds share this machine).
+You have your own scratch git worktree of the repository at `{wt}` (a checkout of the current development tree; `{wt}/target` already holds compiled dependencies). Work ONLY inside `{wt}` and write your deliverables to `{out}`. Do not read or touch `/repo`, `/verif` or `/root`. There is no network; always pass `--offline` to cargo. Use `cd {wt} && cargo ... --offline -j 6` (keep -j 6: other builds share this machine).
 
 The property (a semantic property of the library that must hold for every input/history, not just sampled ones):
 
